@@ -76,6 +76,28 @@ func checkC06(c AxisCase) (bool, *Violation) {
 		if atEnd || rest {
 			nontrivial = true
 		}
+		{
+			kind := "pitch bend"
+			if a.Type == "cc" && a.CCNeg != nil {
+				kind = "two controllers"
+			} else if a.Type == "cc" {
+				kind = "one controller"
+			}
+			rng := "signed range"
+			if a.Min >= 0 {
+				rng = "range from 0"
+				if a.Center != nil && *a.Center {
+					rng = "range from 0 with deadzone_at_center"
+				}
+			}
+			classify("events: " + kind + ", " + rng)
+			classifyIf(flip, "events on a flipped axis")
+			classifyIf(atEnd, "position: physical end stop")
+			classifyIf(sh.InDead, "position: inside the deadzone")
+			classifyIf(sh.AtDZEdge, "position: exactly on the deadzone edge")
+			classifyIf(dz == 0, "events on an axis without deadzone")
+			classifyIf(dz >= 0.5, "events on an axis with a deadzone of half the travel or more")
+		}
 		where := func() string {
 			return fmt.Sprintf("%s, raw %d (exact shaped position %.6f), step %d", axisLabel(a, dz), raw, ratF(sh.S), i)
 		}
@@ -297,9 +319,12 @@ func checkC07(c AxisCase) (bool, *Violation) {
 			side = sh.S.Sign()
 			ab := new(big.Rat).Abs(sh.S)
 			half = ab.Cmp(ratHalf) > 0
-			if nearRat(ab, 0.5) {
+			if nearRat(ab, 0.5) && !(dz == 0 && ab.Cmp(ratHalf) == 0) {
+				// (exactly half travel on an axis without deadzone is decided: the float chain is exact there, and half travel
+				// is not beyond half travel)
 				half = len(ws.Res.Out) > 0 // either reading
 			}
+			classifyIf(learning && dz == 0 && ab.Cmp(ratHalf) == 0, "exactly half travel while learning (decidable)")
 		} else {
 			side = new(big.Rat).Sub(sh.S, ratHalf).Sign()
 			half = sh.S.Cmp(ratHalf) > 0
